@@ -66,40 +66,41 @@ Proof. exact safe_dec_ultra. Qed.
 Theorem C08_no_oob_cursor : forall xh yh w h enc, safe (dec_cursor xh yh w h enc).
 Proof. exact safe_dec_cursor. Qed.
 
-(* ---- refutations: server streams on which the faithful mirror leaves an object; each is replayed on the
-        real library under ASan (corpus/C08/w_*.script, known_findings.d/C08.json) *)
+(* ---- refutations for the control flow BEFORE the fix commits (fix mask 0, [old_state]): server streams on which
+        that mirror leaves an object; each was reproduced on the real library under ASan
+        (corpus/C08/w_*.script, known_findings.d/C08.json, now status fixed) and stays a regression witness *)
 Theorem C08_ultrazip_refuted : exists s ts c, st_ok s /\ handle_msg s ts = Oob c.
 Proof.
-  exists (init_state f888 255 16 16), w_ultrazip, 40.
-  split; [split; [apply init_state_wf; lia|unfold bypp_pos; cbn; lia]|exact w_ultrazip_oob].
+  exists (old_state f888 255 16 16), w_ultrazip, 40.
+  split; [split; [apply old_state_wf; lia|unfold bypp_pos; cbn; lia]|exact w_ultrazip_oob].
 Qed.
 Theorem C08_tight_rows_refuted : exists s ts c, st_ok s /\ handle_msg s ts = Oob c.
 Proof.
-  exists (init_state f888 255 8 8), w_tight_rows, 77.
-  split; [split; [apply init_state_wf; lia|unfold bypp_pos; cbn; lia]|exact w_tight_rows_oob].
+  exists (old_state f888 255 8 8), w_tight_rows, 77.
+  split; [split; [apply old_state_wf; lia|unfold bypp_pos; cbn; lia]|exact w_tight_rows_oob].
 Qed.
 Theorem C08_tight_wide_gradient_refuted : exists s ts c, st_ok s /\ handle_msg s ts = Oob c.
 Proof.
-  exists (init_state f888 255 2100 2), w_tight_wide, 78.
-  split; [split; [apply init_state_wf; lia|unfold bypp_pos; cbn; lia]|exact w_tight_wide_oob].
+  exists (old_state f888 255 2100 2), w_tight_wide, 78.
+  split; [split; [apply old_state_wf; lia|unfold bypp_pos; cbn; lia]|exact w_tight_wide_oob].
 Qed.
 Theorem C08_tight_nozlib_refuted : exists s ts c, st_ok s /\ handle_msg s ts = Oob c.
 Proof.
-  exists (init_state f888 255 640 480), w_tight_nozlib, 74.
-  split; [split; [apply init_state_wf; lia|unfold bypp_pos; cbn; lia]|exact w_tight_nozlib_oob].
+  exists (old_state f888 255 640 480), w_tight_nozlib, 74.
+  split; [split; [apply old_state_wf; lia|unfold bypp_pos; cbn; lia]|exact w_tight_nozlib_oob].
 Qed.
 Theorem C08_trle_refuted : exists s ts c, st_ok s /\ handle_msg s ts = Oob c.
 Proof.
-  exists (init_state f101010 255 16 16), w_trle, 50.
-  split; [split; [apply init_state_wf; lia|unfold bypp_pos; cbn; lia]|exact w_trle_oob].
+  exists (old_state f101010 255 16 16), w_trle, 50.
+  split; [split; [apply old_state_wf; lia|unfold bypp_pos; cbn; lia]|exact w_trle_oob].
 Qed.
 Theorem C08_zrle_refuted : exists s ts c, st_ok s /\ handle_msg s ts = Oob c.
 Proof.
-  exists (init_state f101010 255 65 1), w_zrle_neg, 35.
-  split; [split; [apply init_state_wf; lia|unfold bypp_pos; cbn; lia]|exact w_zrle_neg_oob].
+  exists (old_state f101010 255 65 1), w_zrle_neg, 35.
+  split; [split; [apply old_state_wf; lia|unfold bypp_pos; cbn; lia]|exact w_zrle_neg_oob].
 Qed.
 Theorem C08_zrle_palette_refuted : exists s ts c, st_ok s /\ handle_msg s ts = Oob c.
 Proof.
-  exists (init_state f101010 255 16 16), w_zrle_pal, 44.
-  split; [split; [apply init_state_wf; lia|unfold bypp_pos; cbn; lia]|exact w_zrle_pal_oob].
+  exists (old_state f101010 255 16 16), w_zrle_pal, 44.
+  split; [split; [apply old_state_wf; lia|unfold bypp_pos; cbn; lia]|exact w_zrle_pal_oob].
 Qed.
